@@ -101,12 +101,20 @@ fn run_search(v: &Val) -> Val {
     let needle = String::from_utf8(v.fld(6).bytes()).unwrap_or_default();
     let tmp = String::from_utf8(v.fld(7).bytes()).unwrap_or_default();
 
-    let opts = crate::rgcfg::RgOpts { fixed: true, text: true, ..Default::default() };
-    let all = crate::rgcfg::matcher(&[String::new()], &opts).unwrap();
-    let pat = crate::rgcfg::matcher(&[needle], &opts).unwrap();
+    // strategies 4..7: the same four entry points with multi-line search and patterns that can match the
+    // terminator (MultiLine over the whole transcoded input; files go through fill_multi_line_buffer_from_file)
+    let ml = strategy >= 4;
+    let strategy = strategy % 4;
+    let opts = crate::rgcfg::RgOpts { fixed: !ml, text: true, multiline: ml, dotall: false, ..Default::default() };
+    let all = crate::rgcfg::matcher(&[if ml { String::from("(?s-u:.+)") } else { String::new() }], &opts).unwrap();
+    let pat = if ml {
+        crate::rgcfg::matcher(&[String::from("(?s)a.b|\\n")], &opts).unwrap()
+    } else {
+        crate::rgcfg::matcher(&[needle], &opts).unwrap()
+    };
     let build = |encoded: bool| {
         let mut sb = SearcherBuilder::new();
-        sb.line_number(false).binary_detection(BinaryDetection::none()).verif_buffer_capacity(Some(capacity));
+        sb.line_number(false).multi_line(ml).binary_detection(BinaryDetection::none()).verif_buffer_capacity(Some(capacity));
         if encoded {
             match mode {
                 1 => { sb.encoding(Some(Encoding::new(label_name(label)).unwrap())); }
